@@ -109,7 +109,8 @@ class RuleClassModel(RecordModel):
 RULE_FIELDS = dict(
     __origin__=Cls(name="origin"), __args__=Seq("tuple"), __arg_transformers__=Seq("tuple"),
     __ellipsis_args__=BOOL, __abstract__=BOOL, __applied__=BOOL, __origin_transformer__=OBJ,
-    __options__=OBJ, contains=OBJ, min_contains=OBJ, max_contains=OBJ,
+    __options__=OBJ, contains=OBJ, min_contains=OBJ, max_contains=OBJ, __args_parser__=NONE,
+    __validators__=Seq("list"),
 )
 
 
@@ -122,6 +123,8 @@ def _install(world):
     # RuntimeContext.transformer (property): `self.options.transformer_cls(self)` -- inlined; the
     # option transformer_cls is the class TypeTransformer (user subclasses: leaf hypothesis)
     world.inline.add(("utype/parser/options.py", "RuntimeContext.transformer"))
+    world.inline.add((R, "Rule.pre_validate"))
+    world.inline.add((R, "Rule.post_validate"))
     om = world.models["Options"]
     om.field_descs["transformer_cls"] = Const(lambda ex: tm.class_model.class_value(ex), name="TypeTransformer")
 
@@ -147,6 +150,14 @@ def _leaf_call(ex, fn, args, kwargs, node):
 _C.CALL_MODELS = getattr(_C, "CALL_MODELS", {})
 _C.CALL_MODELS["leaf"] = _leaf_call
 
+class _ClsElem(Desc):
+    name = "class"
+
+    def unbox(self, ex, t):
+        return VCls(t)
+
+
+CLSELEM = _ClsElem()
 TRANSFORMER = Rec("TypeTransformer")
 TCLS = Cls(name="t")
 
@@ -205,12 +216,34 @@ class RESOLVER:
 
 # ------------------------------------------------------------------------------------ sequences (C11)
 
-_cnt = z3.RecFunction("okcount", sym.ARR, V, B, B, I, I)
-_a, _t, _n1, _n2, _k = z3.Const("a_", sym.ARR), z3.Const("t_", V), z3.Bool("nec_"), z3.Bool("ndl_"), z3.Int("k_")
-z3.RecAddDefinition(_cnt, [_a, _t, _n1, _n2, _k],
-                    z3.If(_k <= 0, z3.IntVal(0),
-                          _cnt(_a, _t, _n1, _n2, _k - 1) +
-                          z3.If(accepts_t(_t, z3.Select(_a, _k - 1), _n1, _n2), 1, 0)))
+# okcount(a, t, nec, ndl, k) = #{ i < k | accepts(t, a[i]) }.  Uninterpreted, with its defining equation
+# instantiated at every ground index term a clause mentions (one unfolding step is what a loop step
+# needs); a RecFunction here sends both solvers into unbounded unfolding on the refutable queries.
+_cnt = z3.Function("okcount", sym.ARR, V, B, B, I, I)
+
+
+def _bound_var_inside(term):
+    import re
+    stack, seen = [term], set()
+    while stack:
+        x = stack.pop()
+        if x.get_id() in seen:
+            continue
+        seen.add(x.get_id())
+        if z3.is_const(x) and x.decl().kind() == z3.Z3_OP_UNINTERPRETED and re.match(r"^(q|i_any|i_sub)!\d+$", x.decl().name()):
+            return True
+        if z3.is_app(x):
+            stack.extend(x.children())
+    return False
+
+
+def _cnt_at(ex, arr, t, nec, ndl, kk):
+    term = _cnt(arr, t, nec, ndl, kk)
+    if not _bound_var_inside(kk) and not _bound_var_inside(arr):
+        ex.side(term == z3.If(kk <= 0, z3.IntVal(0),
+                              _cnt(arr, t, nec, ndl, kk - 1) + z3.If(accepts_t(t, z3.Select(arr, kk - 1), nec, ndl), 1, 0)))
+        ex.side(z3.And(term >= 0, z3.Implies(kk >= 0, term <= kk)))
+    return term
 
 
 @specfn("okcount")
@@ -218,7 +251,10 @@ def _okcount(ex, fr, value, t, holder, k):
     """number of accepted elements among value[0:k]"""
     nec, ndl = _mode(ex, holder)
     kk = k.t if isinstance(k, VInt) else z3.IntVal(k)
-    return VInt(_cnt(value.arr, ex.box(t), nec, ndl, kk))
+    if isinstance(value, VTup):
+        value = ex.world.ext.as_seq(ex, value)
+    arr = sym.seq_arr(value.t) if isinstance(value, VObj) else value.arr
+    return VInt(_cnt_at(ex, arr, ex.box(t), nec, ndl, kk))
 
 
 @specfn("ok")
@@ -301,6 +337,7 @@ class PARSE_SEQ_ARGS:
     The result is a fresh list; value is not mutated; nothing but ParseError escapes."""
     self_model = "RuleClass"
     cases = _seq_cases()
+    result = LIST
     returns_by_case = _by_policy(
         {"exclude_length": _EXCL_LEN.format(k="len(value)"), "exclude_is_filter_map": _EXCL_EL.format(k="len(value)"),
          "no_error_recorded": _ERRS_SAME},
@@ -477,6 +514,7 @@ class PARSE_TUPLE_ARGS:
     True, dropped otherwise.  Collecting: a return that recorded nothing is a clean parse (C10)."""
     self_model = "RuleClass"
     cases = _tuple_cases()
+    result = TUPLE
     setup = staticmethod(_tuple_setup)
     loops = _tuple_loops()
     returns_by_case = {cn: _tuple_post(cn) for cn in _tuple_cases()}
@@ -611,6 +649,7 @@ class PARSE_MAP_ARGS:
     as dict assignment does), is a fresh dict, and the input is not mutated."""
     self_model = "RuleClass"
     cases = _map_cases()
+    result = DICT
     setup = staticmethod(_map_setup)
     loops = {0: dict(invariant_by_case={cn: _map_inv(cn, "_k") for cn in _map_cases()}, modifies=["context.errors"])}
     returns_by_case = {cn: _map_inv(cn, "len(value)") for cn in _map_cases()}
@@ -622,3 +661,199 @@ class PARSE_MAP_ARGS:
     modifies = ["context.errors"]
     tags = {"fresh_result": ["C19"]}
     assumes = ["converted keys are hashable (an unhashable converted key raises TypeError at result[key] = val: see findings)"]
+
+
+# ------------------------------------------------------------------------------------ contains (C02)
+
+_CC = "okcount(value, cls.contains, context, {0})"
+_CONT_OK = ("({c} >= 1 and (cls.min_contains is None or {c} >= cls.min_contains) and "
+            "(cls.max_contains is None or {c} <= cls.max_contains))").format(c=_CC.format("len(value)"))
+
+
+def _contains_cases():
+    out = {}
+    for mn, md in (("no-min", NONE), ("min", POS)):
+        for xn, xd in (("no-max", NONE), ("max", POS)):
+            for cn, cd in (("fail-fast", FALSE), ("collect", TRUE)):
+                for vn, vd in (("list", LIST), ("tuple", TUPLE), ("set", SET), ("iterable", OBJ_NN)):
+                    out["%s,%s,%s,%s" % (vn, mn, xn, cn)] = dict(
+                        cls=RULE(contains=Cls(name="contains"), min_contains=md, max_contains=xd), value=vd,
+                        context=CTX(collect_errors=cd, max_errors=NONE))
+    return out
+
+
+@contract(R, "Rule._parse_contains", props=["C02", "C04", "C10"])
+class PARSE_CONTAINS:
+    """documented: at least one item of the `contains` type, and between min_contains and max_contains
+    of them; the value itself is returned unchanged."""
+    self_model = "RuleClass"
+    cases = _contains_cases()
+    loops = {0: dict(invariant={"counted": "contains == %s" % _CC.format("_k"), "errors": _ERRS_SAME})}
+    returns = {"unchanged": "result is value"}
+    returns_by_case = {cn: ({"accept_only_if_contained": _CONT_OK, "no_error_recorded": _ERRS_SAME} if cn.endswith("fail-fast") else
+                            {"clean_only_if_contained": "implies(%s, %s)" % (_ERRS_SAME, _CONT_OK),
+                             "errors_only_grow": "len(context.errors) >= old(len(context.errors))"})
+                       for cn in _contains_cases()}
+    raises_by_case = {cn: {"ParseError": {"reject_only_if_not_contained": "not %s" % _CONT_OK}}
+                      for cn in _contains_cases() if cn.endswith("fail-fast")}
+    only_raises = ["ParseError"]
+    frame = ["value", "cls"]
+    modifies = ["context.errors"]
+
+    assumes = ["case `iterable`: the value is a finite iterable (the declaration check rejects `contains` on a non-Iterable origin)"]
+
+    @staticmethod
+    def setup(ex, frame):
+        c = frame.env["cls"].fields["contains"]
+        ex.assume(sym.truthy_f(c.t))      # `if not cls.contains`: a class is truthy
+
+
+# ------------------------------------------------------------------------------------ Rule.parse
+
+@contract(R, "Rule.__args_parser__", props=["C10", "C04"])
+class ARGS_PARSER_IFACE:
+    """Interface of `cls.__args_parser__` as Rule.parse uses it: one of _parse_seq_args, _parse_tuple_args,
+    _parse_map_args, _parse_type_arg (resolve_args_parser).  Each of them is proved against its own,
+    stronger contract; that each implies this interface is lemma `args_parsers_implement_interface`."""
+    cases = {"any": dict(cls=RULE(), value=OBJ, context=Rec("RuntimeContext"))}
+    which = "virtual"
+    result = OBJ
+    returns = {"errors_only_grow": "len(context.errors) >= old(len(context.errors))",
+               "fail_fast_records_nothing": "implies(not context.options.collect_errors, len(context.errors) == old(len(context.errors)))",
+               "tmp_untouched": "len(context.tmp_errors) == old(len(context.tmp_errors))"}
+    only_raises = ["ParseError"]
+    modifies = ["context.errors"]
+    trusted = ("interface contract: implied by the proved contracts of the four args parsers (lemma "
+               "args_parsers_implement_interface); a user-assigned __args_parser__ is outside the claim")
+
+
+def _args_parser_value(ex):
+    con = ex.world.contracts[(R, "Rule.__args_parser__")]
+
+    def call(ex_, args, kwargs):
+        ex_.used_callees.add("%s:%s" % (con.file, con.qualname))
+        return ex_.world.apply_virtual(ex_, con, dict(cls=None, value=args[0], context=args[1]))
+    return VFunc("__args_parser__", call)
+
+
+class _Validator(Desc):
+    """element of cls.__validators__: (key, constraint, validator)"""
+    name = "validator-entry"
+
+    def unbox(self, ex, t):
+        v = VTup([VStr(sym.unbox_str(z3.Select(sym.seq_arr(t), 0))), VObj(z3.Select(sym.seq_arr(t), 1)),
+                  VObj(z3.Select(sym.seq_arr(t), 2))])
+        v.ref = t
+        return v
+
+
+VALIDATORS = Seq("list", elem=_Validator())
+
+
+def _parse_cases():
+    out = {}
+    for on, od in (("origin", Cls(name="origin")), ("no-origin", NONE)):
+        for an, ad in (("args-parser", Const(_args_parser_value, name="args_parser")), ("no-args-parser", NONE)):
+            if on == "no-origin" and an == "args-parser":
+                continue
+            for cn, cd in (("fail-fast", FALSE), ("collect", TRUE)):
+                for xn, xd in (("context", Rec("RuntimeContext", options=Rec("Options", collect_errors=cd, max_errors=NONE))),):
+                    out["%s,%s,%s" % (on, an, cn)] = dict(
+                        cls=RULE(__origin__=od, __args_parser__=ad, __validators__=VALIDATORS, contains=NONE),
+                        value=OBJ, context=xd)
+    out["origin,no-args-parser,own-context"] = dict(
+        cls=RULE(__origin__=Cls(name="origin"), __args_parser__=NONE, __validators__=VALIDATORS, contains=NONE,
+                 __options__=Rec("Options")), value=OBJ, context=NONE)
+    out["origin,contains,fail-fast"] = dict(
+        cls=RULE(__origin__=Cls(name="origin"), __args_parser__=NONE, __validators__=VALIDATORS, contains=Cls(name="contains")),
+        value=OBJ, context=Rec("RuntimeContext", options=Rec("Options", collect_errors=FALSE, max_errors=NONE)))
+    out["origin,contains,collect"] = dict(
+        cls=RULE(__origin__=Cls(name="origin"), __args_parser__=NONE, __validators__=VALIDATORS, contains=Cls(name="contains")),
+        value=OBJ, context=Rec("RuntimeContext", options=Rec("Options", collect_errors=TRUE, max_errors=NONE)))
+    return out
+
+
+_NOTHING_NEW = "len(context.errors) <= old(len(context.errors))"
+
+
+@contract(R, "Rule.parse", props=["C10", "C04", "C01", "C02"])
+class RULE_PARSE:
+    """C10: whatever the collection mode, a normal return means no error recorded by this call survives
+    (the verdict is the same as fail-fast); C04: only ParseError escapes; the origin conversion failure
+    is raised at once in both modes (the value could not even be typed)."""
+    self_model = "RuleClass"
+    cases = _parse_cases()
+    loops = {0: dict(invariant_by_case={
+        cn: ({"errors_only_grow": "len(context.errors) >= old(len(context.errors))",
+              "fail_fast_clean": "implies(not context.options.collect_errors, len(context.errors) == old(len(context.errors)))",
+              "tmp": "len(context.tmp_errors) == old(len(context.tmp_errors))"} if not cn.endswith("own-context") else
+             {"own_context": "True"})
+        for cn in _parse_cases()}, modifies=["context.errors"])}
+    returns_by_case = {cn: ({"verdict_is_clean": _NOTHING_NEW} if not cn.endswith("own-context") else {})
+                       for cn in _parse_cases()}
+    returns = {}
+    only_raises = ["ParseError"]
+    frame = ["value", "cls"]
+    modifies = ["context.errors"]
+    tags = {"verdict_is_clean": ["C10"], "only_raises": ["C04"]}
+    assumes = ["pre_validate / post_validate are the identity hooks of Rule (inlined from the source; user overrides are outside the claim)",
+               "context.tmp_errors is empty on entry when the final raise_error is reached (callers pass a context whose pending union errors were cleared)"]
+
+    @staticmethod
+    def setup(ex, frame):
+        c = frame.env["cls"]
+        o = c.fields["__origin__"]
+        if isinstance(o, VCls):
+            ex.assume(sym.truthy_f(o.t))
+        cc = c.fields.get("contains")
+        if isinstance(cc, VCls):
+            ex.assume(sym.truthy_f(cc.t))
+
+
+@contract(R, "Rule._parse_type_arg", props=["C04", "C10"])
+class PARSE_TYPE_ARG:
+    """Type[T]: the value (a class) must be a subclass of T; returned unchanged"""
+    self_model = "RuleClass"
+    cases = {"class,fail-fast": dict(cls=RULE(__args__=Seq("tuple", elem=CLSELEM, nonempty=True)), value=Cls(name="value"),
+                                     context=CTX(collect_errors=FALSE, max_errors=NONE)),
+             "class,collect": dict(cls=RULE(__args__=Seq("tuple", elem=CLSELEM, nonempty=True)), value=Cls(name="value"),
+                                   context=CTX(collect_errors=TRUE, max_errors=NONE))}
+    returns = {"unchanged": "result is value", "errors_only_grow": "len(context.errors) >= old(len(context.errors))",
+               "clean_only_if_subclass": "implies(len(context.errors) == old(len(context.errors)), subclass(value, cls.__args__[0]))"}
+    returns_by_case = {"class,fail-fast": {"no_error_recorded": "len(context.errors) == old(len(context.errors))"}}
+    raises = {"ParseError": {"only_if_not_subclass": "not subclass(value, cls.__args__[0])"}}
+    only_raises = ["ParseError"]
+    modifies = ["context.errors"]
+    assumes = ["value is a class (the origin conversion to `type` has succeeded) and __args__[0] is a class"]
+
+    @staticmethod
+    def setup(ex, frame):
+        a = frame.env["cls"].fields["__args__"]
+        ex.assume(ex.world.is_class(z3.Select(a.arr, 0)))
+
+
+def _iface_lemma(qualname, cases, setup=None):
+    def prog(cls, value, context):
+        n0 = len(context.errors)
+        t0 = len(context.tmp_errors)
+        try:
+            r = call("utype/parser/rule.py", "QUALNAME", cls, value, context)
+        except ParseError:
+            return
+        assert len(context.errors) >= n0, "errors_only_grow"
+        assert implies(not context.options.collect_errors, len(context.errors) == n0), "fail_fast_records_nothing"
+        assert len(context.tmp_errors) == t0, "tmp_untouched"
+    import inspect, textwrap
+    src = textwrap.dedent(inspect.getsource(prog)).replace("QUALNAME", qualname)
+    from pyvc.contract import Lemma, LEMMAS
+    lem = Lemma("args_parsers_implement_interface:" + qualname.split(".")[-1], ["C10", "C04"], src, cases,
+                "the proved contract of %s implies the interface Rule.parse relies on" % qualname)
+    lem.module = __name__
+    lem.setup = setup
+    LEMMAS.append(lem)
+
+
+_iface_lemma("Rule._parse_seq_args", _seq_cases())
+_iface_lemma("Rule._parse_tuple_args", _tuple_cases(), _tuple_setup)
+_iface_lemma("Rule._parse_map_args", _map_cases(), _map_setup)
+_iface_lemma("Rule._parse_type_arg", PARSE_TYPE_ARG.cases)
